@@ -2,6 +2,8 @@ pub mod common;
 pub mod c01;
 pub mod c02;
 pub mod c03;
+pub mod c05;
+pub mod c07;
 pub mod c11;
 
 use crate::runner::{replay_prop, run_prop, Ctx};
@@ -20,6 +22,8 @@ pub fn dispatch(id: &str, ctx: &Ctx, replay: Option<&str>) -> i32 {
     "C01" => go!(c01::C01, ctx, replay),
     "C02" => go!(c02::C02, ctx, replay),
     "C03" => go!(c03::C03, ctx, replay),
+    "C05" => go!(c05::C05, ctx, replay),
+    "C07" => go!(c07::C07, ctx, replay),
     "C11" => go!(c11::C11, ctx, replay),
     _ => {
       eprintln!("unknown property {id}");
